@@ -13,7 +13,7 @@ impl crate::Actor for NullWorker {
     }
 }
 
-fn job(key: u64, msg: u64) -> Job<u64, u64> {
+pub fn job(key: u64, msg: u64) -> Job<u64, u64> {
     Job { key, msg, options: JobOptions::default(), accepted: None }
 }
 
@@ -229,4 +229,14 @@ pub fn flags(w: &WorkerProperties<u64, u64>) -> (bool, bool, crate::ActorId, usi
 
 pub fn queue_ids(w: &WorkerProperties<u64, u64>) -> Vec<u64> {
     w.message_queue.iter().map(|j| j.msg).collect()
+}
+
+/// "<queue as key:msg+..>/<in-flight keys>/<pending table key:n+..>"
+pub fn books_of(w: &WorkerProperties<u64, u64>) -> String {
+    let q: Vec<String> = w.message_queue.iter().map(|j| format!("{}:{}", j.key, j.msg)).collect();
+    let mut c: Vec<String> = w.curr_jobs.keys().map(|k| k.to_string()).collect();
+    c.sort();
+    let mut p: Vec<String> = w.pending_key_counts.iter().map(|(k, n)| format!("{k}:{n}")).collect();
+    p.sort();
+    format!("{}/{}/{}", q.join("+"), c.join("+"), p.join("+"))
 }
